@@ -486,6 +486,11 @@ func (e *Env) atom(a string) string {
 		}
 		e.errf("path %s does not denote a scalar (%T)", a, v)
 	}
+	if a == "nospurious" {
+		// the global "no spurious store / IO fault" flag: declared on first use (a function without ORM calls
+		// may mention it through a callee's totality clause)
+		return e.s.declare("nospurious", "Bool")
+	}
 	// SMT symbol from the prelude or built-in
 	if strings.ContainsAny(a, ".[") && !e.s.Spec.Symbols[a] && !baseSymbols[a] && !isNumeral(a) {
 		if _, isComp := e.s.Spec.Comps[a]; !isComp {
